@@ -205,7 +205,9 @@ def fidelity_at(j1, j2, psi, d):
 # ---------------------------------------------------------------------------------------------
 def _solve(prob):
     """Oracle-side solve: CLARABEL, then CVXOPT, then SCS with a tight eps; True only for status 'optimal'."""
-    for solver, kw in (("CLARABEL", {}), ("CVXOPT", {}), ("SCS", {"eps": 1e-8, "max_iters": 20000})):
+    # max_threads=1: CLARABEL otherwise starts a thread pool in the calling process; the runner executes the replay
+    # tier in the parent and then forks the shards, and a forked child deadlocks on the pool it did not inherit.
+    for solver, kw in (("CLARABEL", {"max_threads": 1}), ("CVXOPT", {}), ("SCS", {"eps": 1e-8, "max_iters": 20000})):
         try:
             prob.solve(solver=solver, **kw)
         except Exception:  # noqa: BLE001  (oracle-side solver failure: no oracle value)
